@@ -13,6 +13,15 @@
 //! message obtained through the public API, so the round-trip law of the
 //! property applies to it: what is accepted must be written as well-formed
 //! XML that parses back to an equal message.
+//!
+//! A second pass (`next_lexical`) writes the same population of documents
+//! with one to three attribute values or text nodes re-spelled in every other
+//! lexical form XML has for the same character data (CDATA sections,
+//! character references, predefined entities, comments and processing
+//! instructions between text, white space, CRLF; see "lexical forms" below).
+//! A writer that copies a field out unescaped is only right as long as the
+//! reader cannot deliver a markup character in that field, and which
+//! spellings the reader takes is exactly what this pass varies.
 
 use super::{gen, Crypto, Kind};
 use crate::core::Rng;
@@ -28,6 +37,37 @@ pub struct TextDoc {
     /// `Some(reason)`: the document is outside the protocol; observed only
     pub lenient: Option<&'static str>,
     pub doc: Vec<u8>,
+    /// lexical forms applied to attribute values / text nodes (lexical pass only)
+    pub lex: Vec<LexUse>,
+    /// what is needed to write the same document again with fewer lexical forms
+    replay: Option<Replay>,
+}
+
+struct Replay {
+    root: El,
+    style: Style,
+    render_seed: u64,
+    lex_seed: u64,
+    targets: Vec<usize>,
+}
+
+impl TextDoc {
+    /// The same document with every value in the plain spelling.
+    pub fn render_plain(&self) -> Option<Vec<u8>> {
+        let r = self.replay.as_ref()?;
+        let mut lex = Lex { seed: r.lex_seed, targets: Vec::new(), calm: true, next: 0, uses: Vec::new() };
+        Some(render(&r.root, &r.style, &mut Rng::new(r.render_seed), &mut lex))
+    }
+
+    /// The same document with only the `i`-th lexical form applied (all other
+    /// values in the plain spelling). Used to name the culprit of a failure.
+    pub fn render_only(&self, i: usize) -> Option<(Vec<u8>, Vec<LexUse>)> {
+        let r = self.replay.as_ref()?;
+        let t = *r.targets.get(i)?;
+        let mut lex = Lex { seed: r.lex_seed, targets: vec![t], calm: true, next: 0, uses: Vec::new() };
+        let doc = render(&r.root, &r.style, &mut Rng::new(r.render_seed), &mut lex);
+        Some((doc, lex.uses))
+    }
 }
 
 //------------ a tiny XML writer ------------------------------------------------
@@ -120,7 +160,7 @@ fn esc(s: &str, attr_quote: Option<char>) -> String {
     o
 }
 
-fn write_el(out: &mut String, el: &El, st: &Style, rng: &mut Rng, depth: usize) {
+fn write_el(out: &mut String, el: &El, st: &Style, rng: &mut Rng, depth: usize, lex: &mut Lex) {
     let nl = if st.crlf { "\r\n" } else { "\n" };
     let pad = |out: &mut String, depth: usize| {
         if st.pretty {
@@ -136,11 +176,25 @@ fn write_el(out: &mut String, el: &El, st: &Style, rng: &mut Rng, depth: usize) 
     if st.shuffle_attrs {
         rng.shuffle(&mut order);
     }
+    // slot numbers: the attributes in declaration order, then the text nodes
+    // in document order (the same walk as `collect_slots`)
+    let base = lex.next;
+    lex.next += el.attrs.len();
     for i in order {
         let (k, v) = &el.attrs[i];
         let q = if st.single_quotes && rng.bool() { '\'' } else { '"' };
         out.push(' ');
         out.push_str(k);
+        if lex.wants(base + i) {
+            let mut r = lex.rng_for(base + i);
+            let (eq, l) = lex_attr(&mut r, v, q);
+            out.push_str(eq);
+            out.push(q);
+            out.push_str(&l.lexical);
+            out.push(q);
+            lex.record(format!("attr:{}@{}", el.name, k), l);
+            continue;
+        }
         out.push('=');
         out.push(q);
         out.push_str(&esc(v, Some(q)));
@@ -165,15 +219,36 @@ fn write_el(out: &mut String, el: &El, st: &Style, rng: &mut Rng, depth: usize) 
                     out.push_str("<!-- a comment, with <markup> & such -->");
                 }
                 pad(out, depth + 1);
-                write_el(out, e, st, rng, depth + 1);
+                write_el(out, e, st, rng, depth + 1, lex);
             }
             Node::Text(t) => {
+                let slot = lex.next;
+                lex.next += 1;
                 pad(out, depth + 1);
-                out.push_str(&esc(t, None));
+                if lex.wants(slot) {
+                    let mut r = lex.rng_for(slot);
+                    let l = lex_text(&mut r, t, false);
+                    out.push_str(&l.lexical);
+                    lex.record(format!("text:{}", el.name), l);
+                } else if lex.active() && lex.rng_for(slot).chance(7, 8) {
+                    // not the subject of this document: keep it free of
+                    // references so that the verdict of the reader is about
+                    // the re-spelled values
+                    out.push_str(&without_markup(t));
+                } else {
+                    out.push_str(&esc(t, None));
+                }
             }
             Node::B64(t) => {
+                let slot = lex.next;
+                lex.next += 1;
                 pad(out, depth + 1);
-                if st.fold_base64 > 0 && t.len() > st.fold_base64 {
+                if lex.wants(slot) {
+                    let mut r = lex.rng_for(slot);
+                    let l = lex_text(&mut r, t, true);
+                    out.push_str(&l.lexical);
+                    lex.record(format!("base64:{}", el.name), l);
+                } else if st.fold_base64 > 0 && t.len() > st.fold_base64 {
                     for (i, chunk) in t.as_bytes().chunks(st.fold_base64).enumerate() {
                         if i > 0 {
                             out.push_str(nl);
@@ -192,7 +267,7 @@ fn write_el(out: &mut String, el: &El, st: &Style, rng: &mut Rng, depth: usize) 
     out.push('>');
 }
 
-fn render(root: &El, st: &Style, rng: &mut Rng) -> Vec<u8> {
+fn render(root: &El, st: &Style, rng: &mut Rng, lex: &mut Lex) -> Vec<u8> {
     let mut out = String::new();
     if st.declaration {
         out.push_str("<?xml version=\"1.0\" encoding=\"UTF-8\"?>");
@@ -201,7 +276,7 @@ fn render(root: &El, st: &Style, rng: &mut Rng) -> Vec<u8> {
     if st.comments && rng.bool() {
         out.push_str("<!-- leading comment -->\n");
     }
-    write_el(&mut out, root, st, rng, 0);
+    write_el(&mut out, root, st, rng, 0, lex);
     if rng.chance(1, 3) {
         out.push('\n');
     }
@@ -233,6 +308,382 @@ fn b64url(data: &[u8], padding: bool) -> String {
 
 fn hex(data: &[u8], upper: bool) -> String {
     data.iter().map(|b| if upper { format!("{b:02X}") } else { format!("{b:02x}") }).collect()
+}
+
+//------------ lexical forms ------------------------------------------------------
+//
+// XML lets the same character data be spelled in many ways. The writer above
+// uses one spelling per construct; the lexical pass re-spells chosen attribute
+// values and text nodes in every other way the XML recommendation allows:
+// CDATA sections (whole value, or mixed with plain runs and references, with
+// `]]>` split over two sections), decimal / hexadecimal character references
+// (for the markup characters and for ordinary ones, with leading zeros), the
+// five predefined entity references, comments and processing instructions
+// before / inside / after the text, white space (literal or as references)
+// around the value, CRLF line ends; for attributes additionally the minimal
+// escaping (`>` and the other quote raw) and white space around `=`.
+// Whether the library's reader accepts a spelling is its choice (observed);
+// whatever it accepts is a message and is held to the round-trip law.
+
+/// One re-spelled attribute value or text node.
+pub struct LexUse {
+    /// `attr:<element>@<attribute>`, `text:<element>` or `base64:<element>`
+    pub slot: String,
+    /// cdata | reference | comment-or-pi | white-space | quoting | attr-syntax
+    /// (`+reference`: a comment / white-space spelling of text that has markup
+    /// characters, which are then written as predefined entities)
+    pub family: &'static str,
+    pub form: &'static str,
+    /// the value an XML processor reports for the spelling (before any
+    /// schema-level white space handling)
+    pub logical: String,
+    /// the spelling written into the document
+    pub lexical: String,
+    /// the spelling puts a tab, CR or LF *into* the value (not merely layout
+    /// around element text): the value is then outside "protocol-valid"
+    pub control: bool,
+}
+
+struct Lexed {
+    lexical: String,
+    logical: String,
+    family: &'static str,
+    form: &'static str,
+    control: bool,
+}
+
+struct Lex {
+    seed: u64,
+    /// slots to re-spell
+    targets: Vec<usize>,
+    /// a document of the lexical pass: text that is not re-spelled is mostly
+    /// written without markup characters
+    calm: bool,
+    next: usize,
+    uses: Vec<LexUse>,
+}
+
+impl Lex {
+    fn off() -> Self {
+        Lex { seed: 0, targets: Vec::new(), calm: false, next: 0, uses: Vec::new() }
+    }
+    fn active(&self) -> bool {
+        self.calm
+    }
+    fn wants(&self, slot: usize) -> bool {
+        !self.targets.is_empty() && self.targets.contains(&slot)
+    }
+    /// The spelling of a slot depends on the slot and the document only, so
+    /// that the document can be written again with a subset of the forms.
+    fn rng_for(&self, slot: usize) -> Rng {
+        Rng::new(self.seed ^ (slot as u64 + 1).wrapping_mul(0x9E37_79B9_7F4A_7C15))
+    }
+    fn record(&mut self, slot: String, l: Lexed) {
+        self.uses.push(LexUse { slot, family: l.family, form: l.form, logical: l.logical, lexical: l.lexical, control: l.control });
+    }
+}
+
+#[derive(Clone, Copy, PartialEq)]
+enum SlotKind {
+    Attr,
+    Text,
+    B64,
+}
+
+fn collect_slots(el: &El, out: &mut Vec<(SlotKind, &'static str)>) {
+    for (k, _) in &el.attrs {
+        out.push((SlotKind::Attr, k));
+    }
+    for k in &el.kids {
+        match k {
+            Node::El(e) => collect_slots(e, out),
+            Node::Text(_) => out.push((SlotKind::Text, el.name)),
+            Node::B64(_) => out.push((SlotKind::B64, el.name)),
+        }
+    }
+}
+
+fn char_ref(rng: &mut Rng, c: char, hex: bool) -> String {
+    let n = c as u32;
+    let zeros = *rng.pick(&["", "", "", "0", "000"]);
+    if hex {
+        if rng.bool() { format!("&#x{zeros}{n:x};") } else { format!("&#x{zeros}{n:X};") }
+    } else {
+        format!("&#{zeros}{n};")
+    }
+}
+
+fn named_entity(c: char) -> Option<&'static str> {
+    match c {
+        '<' => Some("&lt;"),
+        '>' => Some("&gt;"),
+        '&' => Some("&amp;"),
+        '"' => Some("&quot;"),
+        '\'' => Some("&apos;"),
+        _ => None,
+    }
+}
+
+fn without_markup(s: &str) -> String {
+    s.replace(['<', '&', '>'], "-")
+}
+
+fn is_markup_char(c: char) -> bool {
+    matches!(c, '<' | '>' | '&' | '"' | '\'')
+}
+
+/// `s` as CDATA; a `]]>` inside is split over two sections.
+fn cdata(s: &str) -> String {
+    format!("<![CDATA[{}]]>", s.replace("]]>", "]]]]><![CDATA[>"))
+}
+
+const COMMENTS: [&str; 5] = ["<!-- c -->", "<!---->", "<!-- a comment, with <markup> & such -->", "<!-- ]]> -->", "<!--\n-->"];
+const PIS: [&str; 3] = ["<?harness?>", "<?harness a=\"b\" ?>", "<?h <&> ?>"];
+
+/// Markup characters (and a few ordinary ones) as character references.
+fn with_char_refs(rng: &mut Rng, s: &str, hex: Option<bool>, others: (u64, u64)) -> String {
+    let mut o = String::with_capacity(s.len() * 2);
+    let mut changed = false;
+    let n = s.chars().count();
+    let forced = if n > 0 { rng.usize_below(n) } else { 0 };
+    for (i, c) in s.chars().enumerate() {
+        let h = hex.unwrap_or_else(|| rng.bool());
+        if is_markup_char(c) || rng.chance(others.0, others.1) || (i == forced && !changed && !s.chars().any(is_markup_char)) {
+            o.push_str(&char_ref(rng, c, h));
+            changed = true;
+        } else {
+            o.push(c);
+        }
+    }
+    o
+}
+
+/// Every markup character as its predefined entity (where text has none, one
+/// ordinary character becomes a character reference so that the spelling is
+/// not the plain one).
+fn with_entities(rng: &mut Rng, s: &str) -> String {
+    if !s.chars().any(is_markup_char) {
+        return with_char_refs(rng, s, None, (0, 1));
+    }
+    let mut o = String::with_capacity(s.len() + 16);
+    for c in s.chars() {
+        match named_entity(c) {
+            Some(e) => o.push_str(e),
+            None => o.push(c),
+        }
+    }
+    o
+}
+
+/// Splits at a character boundary.
+fn split_at_char(s: &str, at: usize) -> (&str, &str) {
+    let idx = s.char_indices().nth(at).map(|(i, _)| i).unwrap_or(s.len());
+    s.split_at(idx)
+}
+
+/// Re-spells the character data of an element. `b64`: the text is Base64
+/// (no markup characters; line folding is a legal spelling).
+fn lex_text(rng: &mut Rng, t: &str, b64: bool) -> Lexed {
+    let plain = |s: &str| esc(s, None);
+    let choice = rng.below(16);
+    // the comment / white space spellings mostly around text that needs no
+    // reference (what the reader makes of references is the business of the
+    // other forms)
+    let calm = without_markup(t);
+    let t = if choice >= 10 && rng.chance(2, 3) { calm.as_str() } else { t };
+    let n = t.chars().count();
+    let mut logical = t.to_string();
+    let mut control = false;
+    let (family, form, lexical): (&'static str, &'static str, String) = match choice {
+        0..=2 => ("cdata", "cdata-whole", cdata(t)),
+        3 | 4 => {
+            // runs: CDATA / plain with entities / references, at least one CDATA
+            let runs = rng.range(2, 4) as usize;
+            let mut cuts: Vec<usize> = (0..runs - 1).map(|_| rng.usize_below(n + 1)).collect();
+            cuts.sort();
+            cuts.push(n);
+            let cd = rng.usize_below(runs);
+            let mut o = String::new();
+            let mut from = 0;
+            for (i, to) in cuts.iter().enumerate() {
+                let (head, _) = split_at_char(t, *to);
+                let (_, run) = split_at_char(head, from);
+                from = *to;
+                let how = if i == cd { 0 } else { rng.below(4) };
+                match how {
+                    0 => o.push_str(&cdata(run)),
+                    1 => o.push_str(&plain(run)),
+                    2 => o.push_str(&with_char_refs(rng, run, None, (1, 1))),
+                    _ => o.push_str(&with_entities(rng, run)),
+                }
+                if rng.chance(1, 8) {
+                    o.push_str(*rng.pick(&COMMENTS));
+                }
+            }
+            ("cdata", "cdata-mixed", o)
+        }
+        5 => {
+            let side = rng.below(3);
+            let mut o = String::new();
+            if side != 1 {
+                o.push_str("<![CDATA[]]>");
+            }
+            o.push_str(&plain(t));
+            if side != 0 {
+                o.push_str("<![CDATA[]]>");
+            }
+            ("cdata", "cdata-empty-adjacent", o)
+        }
+        6 => ("reference", "char-ref-decimal", with_char_refs(rng, t, Some(false), (1, 8))),
+        7 => ("reference", "char-ref-hex", with_char_refs(rng, t, Some(true), (1, 8))),
+        8 => ("reference", "char-ref-every-character", with_char_refs(rng, t, None, (1, 1))),
+        9 if t.chars().any(is_markup_char) => ("reference", "predefined-entities", with_entities(rng, t)),
+        9 => ("reference", "char-ref-one-character", with_char_refs(rng, t, None, (0, 1))),
+        10 | 11 => {
+            let pi = rng.chance(1, 3);
+            let what: &str = if pi { *rng.pick(&PIS) } else { *rng.pick(&COMMENTS) };
+            let (a, b) = split_at_char(t, if n > 1 { rng.range(1, n as u64 - 1) as usize } else { 0 });
+            ("comment-or-pi", if pi { "pi-inside" } else { "comment-inside" }, format!("{}{}{}", plain(a), what, plain(b)))
+        }
+        12 => {
+            let pi = rng.chance(1, 3);
+            let what: &str = if pi { *rng.pick(&PIS) } else { *rng.pick(&COMMENTS) };
+            match rng.below(3) {
+                0 => ("comment-or-pi", if pi { "pi-before" } else { "comment-before" }, format!("{}{}", what, plain(t))),
+                1 => ("comment-or-pi", if pi { "pi-after" } else { "comment-after" }, format!("{}{}", plain(t), what)),
+                _ => ("comment-or-pi", if pi { "pi-around" } else { "comment-around" }, format!("{}{}{}", what, plain(t), what)),
+            }
+        }
+        13 => {
+            let ws = ["  ", "\t", "\n", "\r\n", " \n\t ", "\n\n      "];
+            let (a, b) = (*rng.pick(&ws), *rng.pick(&ws));
+            logical = format!("{}{}{}", a.replace("\r\n", "\n"), t, b.replace("\r\n", "\n"));
+            ("white-space", "literal-space-around", format!("{a}{}{b}", plain(t)))
+        }
+        14 => {
+            let refs = [("&#32;", " "), ("&#x20;", " "), ("&#10;", "\n"), ("&#xA;", "\n"), ("&#9;", "\t"), ("&#13;", "\r"), ("&#32;&#32;", "  ")];
+            let (a, b) = (*rng.pick(&refs), *rng.pick(&refs));
+            let (front, back) = match rng.below(3) {
+                0 => (Some(a), None),
+                1 => (None, Some(b)),
+                _ => (Some(a), Some(b)),
+            };
+            logical = format!("{}{}{}", front.map(|x| x.1).unwrap_or(""), t, back.map(|x| x.1).unwrap_or(""));
+            control = logical.bytes().any(|b| b < 0x20);
+            ("white-space", "space-reference-around", format!("{}{}{}", front.map(|x| x.0).unwrap_or(""), plain(t), back.map(|x| x.0).unwrap_or("")))
+        }
+        _ => {
+            if b64 {
+                // lines of 4..64 characters ending in CRLF
+                let w = (*rng.pick(&[4usize, 16, 64])).max(1);
+                let mut o = String::new();
+                for (i, chunk) in t.as_bytes().chunks(w).enumerate() {
+                    if i > 0 {
+                        o.push_str("\r\n");
+                    }
+                    o.push_str(std::str::from_utf8(chunk).unwrap_or(""));
+                }
+                logical = o.replace("\r\n", "\n");
+                ("white-space", "crlf-folded", o)
+            } else {
+                let (a, b) = split_at_char(t, rng.usize_below(n + 1));
+                logical = format!("{a}\n{b}");
+                control = true;
+                ("white-space", "crlf-inside", format!("{}\r\n{}", plain(a), plain(b)))
+            }
+        }
+    };
+    // a comment / white-space spelling around text that itself needs references
+    let family = match (family, choice >= 10 && t.chars().any(|c| matches!(c, '<' | '&' | '>'))) {
+        ("comment-or-pi", true) => "comment-or-pi+reference",
+        ("white-space", true) => "white-space+reference",
+        (f, _) => f,
+    };
+    Lexed { lexical, logical, family, form, control }
+}
+
+/// Re-spells an attribute value written between `q` quotes; also returns the
+/// spelling of the `=`.
+fn lex_attr(rng: &mut Rng, v: &str, q: char) -> (&'static str, Lexed) {
+    let n = v.chars().count();
+    // what has to be escaped at least: < & and the quote in use
+    let minimal = |s: &str| {
+        let mut o = String::with_capacity(s.len() + 8);
+        for c in s.chars() {
+            match c {
+                '<' => o.push_str("&lt;"),
+                '&' => o.push_str("&amp;"),
+                c if c == q => o.push_str(if q == '"' { "&quot;" } else { "&apos;" }),
+                c => o.push(c),
+            }
+        }
+        o
+    };
+    let mut logical = v.to_string();
+    let mut eq = "=";
+    let (family, form, lexical): (&'static str, &'static str, String) = match rng.below(14) {
+        0 | 1 if v.chars().any(is_markup_char) => ("reference", "predefined-entities", with_entities(rng, v)),
+        0 | 1 => ("reference", "char-ref-one-character", with_char_refs(rng, v, None, (0, 1))),
+        2 => ("reference", "char-ref-decimal", with_char_refs(rng, v, Some(false), (1, 8))),
+        3 => ("reference", "char-ref-hex", with_char_refs(rng, v, Some(true), (1, 8))),
+        4 => ("reference", "char-ref-every-character", with_char_refs(rng, v, None, (1, 1))),
+        5 => {
+            // every markup character in a spelling of its own
+            let mut o = String::new();
+            for c in v.chars() {
+                if is_markup_char(c) {
+                    match rng.below(3) {
+                        0 => o.push_str(named_entity(c).unwrap_or("")),
+                        1 => o.push_str(&char_ref(rng, c, false)),
+                        _ => o.push_str(&char_ref(rng, c, true)),
+                    }
+                } else {
+                    o.push(c);
+                }
+            }
+            ("reference", "mixed-references", o)
+        }
+        6 | 7 => ("quoting", "minimal-escaping", minimal(v)),
+        8 | 9 => {
+            eq = *rng.pick(&[" = ", " =", "= ", "\n=\n", "\t=\r\n  "]);
+            ("attr-syntax", "space-around-equals", minimal(v))
+        }
+        10 => {
+            let r = *rng.pick(&["&#32;", "&#x20;", "&#0032;"]);
+            let mid = rng.usize_below(n + 1);
+            let (a, b) = split_at_char(v, *rng.pick(&[0, n, mid]));
+            logical = format!("{a} {b}");
+            ("white-space", "space-reference", format!("{}{}{}", minimal(a), r, minimal(b)))
+        }
+        11 => {
+            let (r, c) = *rng.pick(&[("&#9;", "\t"), ("&#10;", "\n"), ("&#xa;", "\n"), ("&#13;", "\r"), ("&#13;&#10;", "\r\n")]);
+            let mid = rng.usize_below(n + 1);
+            let (a, b) = split_at_char(v, *rng.pick(&[0, n, mid]));
+            logical = format!("{a}{c}{b}");
+            ("white-space", "control-reference", format!("{}{}{}", minimal(a), r, minimal(b)))
+        }
+        12 => {
+            // literal tab / line end in the value: an XML processor reports a
+            // space for each (attribute-value normalisation)
+            let lit = *rng.pick(&["\t", "\n", "\r\n", "\n  "]);
+            let mid = rng.usize_below(n + 1);
+            let (a, b) = split_at_char(v, *rng.pick(&[0, n, mid]));
+            logical = format!("{a}{lit}{b}");
+            ("white-space", "literal-tab-or-line-end", format!("{}{}{}", minimal(a), lit, minimal(b)))
+        }
+        _ => {
+            let sp = *rng.pick(&[" ", "  ", "   "]);
+            let (front, back) = match rng.below(3) {
+                0 => (sp, ""),
+                1 => ("", sp),
+                _ => (sp, sp),
+            };
+            logical = format!("{front}{v}{back}");
+            ("white-space", "literal-space-at-the-edges", format!("{front}{}{back}", minimal(v)))
+        }
+    };
+    let control = logical.bytes().any(|b| b < 0x20);
+    (eq, Lexed { lexical, logical, family, form, control })
 }
 
 //------------ presence bookkeeping ---------------------------------------------
@@ -293,7 +744,19 @@ struct Vals<'a> {
     crypto: Option<&'a Crypto>,
     stats: gen::ResStats,
     refused: u64,
+    /// lexical pass: free text is drawn with markup characters in it
+    lexical: bool,
+    /// lexical pass: make this document one of the messages with free text
+    force_error: bool,
 }
+
+/// What an error text can be made of: printable ASCII, much of it looking
+/// like markup (it is character data all the same).
+const PROSE_BITS: &[&str] = &[
+    "a < b", "R&D", "x ]]> y", "]]", "]]>", "<publish/>", "</description>", "</error_text>", "<status>0</status>", "&amp;", "&lt;",
+    "&#60;", "1 > 0", "\"quoted\"", "it's", "<!-- c -->", "<?pi?>", "<![CDATA[", "a&b<c", "&", "<", ">", "&&", "<<", "hash mismatch",
+    "no such class", "size", "limit", "-", ";", "</message>", "</msg>", "<a b='c'>", "&unknown;", "100%",
+];
 
 impl Vals<'_> {
     fn handle(&mut self, rng: &mut Rng) -> String {
@@ -320,6 +783,22 @@ impl Vals<'_> {
     /// Readable text for `<description>` / `<error_text>`: printable ASCII
     /// with a letter at both ends (surrounding white space is not content).
     fn prose(&mut self, rng: &mut Rng) -> String {
+        if self.lexical {
+            let n = rng.range(1, 4);
+            let mut s = String::new();
+            for i in 0..n {
+                if i > 0 {
+                    s.push_str(*rng.pick(&[" ", "", ": ", "  "]));
+                }
+                s.push_str(*rng.pick(PROSE_BITS));
+            }
+            // mostly a letter at both ends (surrounding white space is not content)
+            return match rng.below(6) {
+                0 => s,
+                1 => format!(" {s} "),
+                _ => format!("e{s}d"),
+            };
+        }
         let mid = gen::freeform(rng);
         let mid = if mid.len() > 80 { mid[..80].to_string() } else { mid };
         // mostly without the characters that need escaping in character data:
@@ -439,7 +918,13 @@ fn provisioning(v: &mut Vals, rng: &mut Rng, o: &mut Opt) -> (&'static str, El) 
         root = root.attr("version", "1");
     }
     root = root.attr("sender", v.handle(rng)).attr("recipient", v.handle(rng));
-    let choice = if v.crypto.is_some() { rng.below(9) } else { *rng.pick(&[0u64, 4, 5, 6, 7, 8]) };
+    let choice = if v.force_error {
+        8
+    } else if v.crypto.is_some() {
+        rng.below(9)
+    } else {
+        *rng.pick(&[0u64, 4, 5, 6, 7, 8])
+    };
     match choice {
         0 => ("provisioning.list", root.attr("type", "list")),
         1 => {
@@ -526,7 +1011,8 @@ fn publication(v: &mut Vals, rng: &mut Rng, o: &mut Opt, lenient: &mut Option<&'
     if o.has(rng, "version") {
         root = root.attr("version", "4");
     }
-    match rng.below(8) {
+    let choice = if v.force_error { 3 } else { rng.below(8) };
+    match choice {
         0 => ("publication.list_query", root.attr("type", "query").kid(Node::El(El::new("list")))),
         1 => ("publication.success", root.attr("type", "reply").kid(Node::El(El::new("success")))),
         2 => {
@@ -649,27 +1135,85 @@ pub struct TextGen<'a> {
 
 impl<'a> TextGen<'a> {
     pub fn new(crypto: Option<&'a Crypto>) -> Self {
-        TextGen { vals: Vals { crypto, stats: gen::ResStats::default(), refused: 0 } }
+        TextGen { vals: Vals { crypto, stats: gen::ResStats::default(), refused: 0, lexical: false, force_error: false } }
+    }
+
+    fn build(&mut self, rng: &mut Rng, o: &mut Opt, lenient: &mut Option<&'static str>) -> (Kind, &'static str, El) {
+        let family = if self.vals.force_error { rng.below(7) } else { rng.below(10) };
+        match family {
+            0..=3 => {
+                let (variant, root) = provisioning(&mut self.vals, rng, o);
+                (Kind::Prov, variant, root)
+            }
+            4..=6 => {
+                let (variant, root) = publication(&mut self.vals, rng, o, lenient);
+                (Kind::Publ, variant, root)
+            }
+            _ => idexchange(&mut self.vals, rng, o),
+        }
     }
 
     pub fn next(&mut self, rng: &mut Rng) -> TextDoc {
         let mut o = Opt::new(rng);
         let mut lenient = None;
-        let (kind, variant, root) = match rng.below(10) {
-            0..=3 => {
-                let (variant, root) = provisioning(&mut self.vals, rng, &mut o);
-                (Kind::Prov, variant, root)
-            }
-            4..=6 => {
-                let (variant, root) = publication(&mut self.vals, rng, &mut o, &mut lenient);
-                (Kind::Publ, variant, root)
-            }
-            _ => idexchange(&mut self.vals, rng, &mut o),
-        };
+        let (kind, variant, root) = self.build(rng, &mut o, &mut lenient);
         let st = Style::random(rng);
-        let doc = render(&root, &st, rng);
+        let doc = render(&root, &st, rng, &mut Lex::off());
         o.absent.sort();
         o.extras.sort();
-        TextDoc { kind, variant, absent: o.absent, extras: o.extras, spelling: st.describe(), lenient, doc }
+        TextDoc { kind, variant, absent: o.absent, extras: o.extras, spelling: st.describe(), lenient, doc, lex: Vec::new(), replay: None }
+    }
+
+    /// A document of the same population with one to three attribute values or
+    /// text nodes re-spelled (see "lexical forms"); free text, where the
+    /// message has any, is the favourite.
+    pub fn next_lexical(&mut self, rng: &mut Rng) -> TextDoc {
+        let mut o = Opt::new(rng);
+        let mut lenient = None;
+        self.vals.lexical = true;
+        self.vals.force_error = rng.chance(1, 3);
+        let (kind, variant, root) = self.build(rng, &mut o, &mut lenient);
+        self.vals.lexical = false;
+        self.vals.force_error = false;
+        let st = Style::random(rng);
+        let (render_seed, lex_seed) = (rng.next_u64(), rng.next_u64());
+        let mut slots = Vec::new();
+        collect_slots(&root, &mut slots);
+        let mut targets: Vec<usize> = Vec::new();
+        let free: Vec<usize> = (0..slots.len()).filter(|i| slots[*i].0 == SlotKind::Text).collect();
+        if !free.is_empty() && rng.chance(3, 4) {
+            targets.push(*rng.pick(&free));
+        }
+        let more = if targets.is_empty() { *rng.pick(&[1usize, 1, 1, 1, 2, 3]) } else { *rng.pick(&[0usize, 0, 0, 0, 1, 2]) };
+        for _ in 0..more {
+            if slots.is_empty() {
+                break;
+            }
+            let t = rng.usize_below(slots.len());
+            if !targets.contains(&t) {
+                targets.push(t);
+            }
+        }
+        targets.sort();
+        let mut lex = Lex { seed: lex_seed, targets: targets.clone(), calm: true, next: 0, uses: Vec::new() };
+        let doc = render(&root, &st, &mut Rng::new(render_seed), &mut lex);
+        // the order of `lex.uses` is the order of writing; `render_only(i)` goes by target
+        if lenient.is_none() && lex.uses.iter().any(|u| u.control) {
+            // tab / CR / LF inside a value: outside "protocol-valid field values"
+            lenient = Some("control-character-in-value");
+        }
+        o.absent.sort();
+        o.extras.sort();
+        TextDoc {
+            kind,
+            variant,
+            absent: o.absent,
+            extras: o.extras,
+            spelling: st.describe(),
+            lenient,
+            doc,
+            lex: lex.uses,
+            replay: Some(Replay { root, style: st, render_seed, lex_seed, targets }),
+        }
     }
 }
